@@ -87,6 +87,7 @@ var gens = []generator{
 	{file: "GoStrings.lean", src: "(fixed prelude of the seqio writer translator: strings, slices, fmt verbs)", run: genGoStrings},
 	{file: "InsdcWrite.lean", src: "seqio/insdc.go (GetQualifierType, QualifierIO.String, QualifierFormatter.String, INSDCFormatter.String)", run: genInsdcWrite},
 	{file: "FastaWrite.lean", src: "seqio/fasta.go (Fasta.WriteTo, FastaWriter.WriteSeq)", run: genFastaWrite},
+	{file: "FastaRead.lean", src: "seqio/fasta.go (the Map function of FastaParser)", run: genFastaRead},
 	{file: "GbFields.lean", src: "seqio/genbank.go (GenBankFields.ID, GenBankFields.String)", run: genGbFields},
 	{file: "GenBankWrite.lean", src: "seqio/genbank.go (GenBank.String)", run: genGenBankWrite},
 	{file: "GbSlice.lean", src: "seqio/genbank.go (GenBankFields.Slice)", run: genGbSlice},
